@@ -373,7 +373,11 @@ class Gen(object):
         if self.chance(0.4):
             r['coerce'] = self.coercer()
         x = self.r.random()
-        if x < 0.3:
+        kr = r.get('keysrules')
+        if isinstance(kr, dict) and ('coerce' in kr) and r.get('type') == 'dict' and 'coerce' not in r and self.chance(0.5):
+            # a mutable default that the keys normalization has something to do with
+            r['default'] = self.pick([{'a': 1, 'b': 2}, {'a': 1}, {1: 'x', 'k': 2}])
+        elif x < 0.3:
             r['default'] = self.pick([0, 1, 'a', None, [1, 2], {'a': 1}, 2.5, True, []])
         elif x < 0.45:
             r['default_setter'] = self.setter(siblings)
@@ -472,6 +476,13 @@ class Gen(object):
             d = {}
             for k in self.some(SUBKEYS, 0, 3):
                 d[k] = self.value_for(rules.get('valuesrules'), depth - 1) if 'valuesrules' in rules else self.anyval(1)
+            kr = rules.get('keysrules')
+            if isinstance(kr, dict) and ('coerce' in kr or 'rename_handler' in kr) and self.chance(0.4):
+                # keys that a key coercer maps onto one another
+                for a, b in self.some([(1, '1'), ('a', 'a_k'), (0, '0'), ('b', 'b_k')], 1, 2):
+                    for k in (a, b):
+                        if k not in d:
+                            d[k] = self.value_for(rules.get('valuesrules'), depth - 1) if 'valuesrules' in rules else self.anyval(1)
             return d
         return self.anyval(1)
 
@@ -491,6 +502,19 @@ class Gen(object):
             if self.chance(0.05):
                 continue
             d[f] = self.value_for(rules, depth)
+        # fields that rules of this level name but the schema does not define (excludes / dependencies targets)
+        foreign = []
+        for f, rules in schema.items():
+            if isinstance(rules, dict):
+                for rn in ('excludes', 'dependencies'):
+                    c = rules.get(rn)
+                    names = [c] if isinstance(c, (str, int)) else (list(c) if isinstance(c, (list, tuple, dict)) else [])
+                    foreign += [n for n in names if isinstance(n, (str, int)) and not isinstance(n, bool) and n not in schema
+                                and not (isinstance(n, str) and ('.' in n or n.startswith('^')))]
+        if foreign and self.chance(0.5):
+            for n in self.some(foreign, 1, 2):
+                if n not in d:
+                    d[n] = None if self.chance(0.5) else self.anyval(1)
         if isinstance(unknown, dict) and unknown and depth > 0 and self.chance(0.6):
             # unknown fields that the rules for unknown fields have something to say about
             for k in self.some(['u1', 'u2', 'zz'], 1, 2):
